@@ -111,6 +111,7 @@ func (c *Ctx) SigningRootProvenance(prop string) {
 	ruleD := "C05.O6 same-domain"
 	ruleP := "C01.O12 pubkey.resolved"
 	var sigRootFn *ssa.Function
+	sigRootData, sigRootDomain, sigRootCombined := 1, 2, false
 	nsites := 0
 	for _, site := range sg.Sites {
 		E, F := site.Endpoint, site.Fn
@@ -148,25 +149,41 @@ func (c *Ctx) SigningRootProvenance(prop string) {
 			return ok && root == ssa.Value(dataP) && idx == wantIdx
 		}
 		args := site.Call.Common().Args
-		if len(args) != 3 {
+		if len(args) != 3 && len(args) != 4 {
 			c.R.Unknown(rule3, Fn(F), c.Pos(site.Call), "unexpected signing helper signature")
 			continue
 		}
 		nsites++
-		accountArg, rootArg := args[1], args[2]
-		// 1. root <- G
-		src := arraySliceSource(rootArg)
-		ex, _ := src.(*ssa.Extract)
-		var G *ssa.Call
-		if ex != nil && ex.Index == 0 {
-			G, _ = ex.Tuple.(*ssa.Call)
+		accountArg := args[1]
+		var dataRootArg, domainArg ssa.Value
+		var G ssa.Instruction
+		if len(args) == 4 {
+			// a combined helper sign(ctx, account, dataRoot, domain) that computes the signing root itself and signs it
+			comb := site.Call.Common().StaticCallee()
+			if comb == nil || !prog.InModule(comb) {
+				c.R.Unknown(rule3, Fn(F), c.Pos(site.Call), "unexpected signing helper")
+				continue
+			}
+			dataRootArg, domainArg = args[2], args[3]
+			G = site.Call.(ssa.Instruction)
+			sigRootFn, sigRootData, sigRootDomain, sigRootCombined = comb, 2, 3, true
+		} else {
+			rootArg := args[2]
+			// 1. root <- G
+			src := arraySliceSource(rootArg)
+			ex, _ := src.(*ssa.Extract)
+			var GC *ssa.Call
+			if ex != nil && ex.Index == 0 {
+				GC, _ = ex.Tuple.(*ssa.Call)
+			}
+			if GC == nil || GC.Call.StaticCallee() == nil || !prog.InModule(GC.Call.StaticCallee()) || len(GC.Call.Args) != 3 {
+				c.R.Fail(rule3, Fn(F), c.Pos(site.Call), "what is signed is not the output of the signing-root computation: "+an.Term(rootArg), "Sign(signingRoot[:]) with signingRoot = generateSigningRoot(dataRoot, domain)", nil)
+				continue
+			}
+			sigRootFn, sigRootData, sigRootDomain, sigRootCombined = GC.Call.StaticCallee(), 1, 2, false
+			dataRootArg, domainArg = GC.Call.Args[1], GC.Call.Args[2]
+			G = GC
 		}
-		if G == nil || G.Call.StaticCallee() == nil || !prog.InModule(G.Call.StaticCallee()) || len(G.Call.Args) != 3 {
-			c.R.Fail(rule3, Fn(F), c.Pos(site.Call), "what is signed is not the output of the signing-root computation: "+an.Term(rootArg), "Sign(signingRoot[:]) with signingRoot = generateSigningRoot(dataRoot, domain)", nil)
-			continue
-		}
-		sigRootFn = G.Call.StaticCallee()
-		dataRootArg, domainArg := G.Call.Args[1], G.Call.Args[2]
 		// 2. domain
 		if p := reqPathFrom(domainArg, isD); p != "Domain" {
 			c.R.Fail(ruleD, Fn(F), c.Pos(G), "the domain that is signed is not the Domain of the request data that the rules examined at this position: "+an.Term(domainArg), "generateSigningRoot(_, data.Domain) with the same data object that went to the rules", nil)
@@ -357,7 +374,7 @@ func (c *Ctx) SigningRootProvenance(prop string) {
 	}
 	// the signing-root helper
 	if sigRootFn != nil {
-		c.signingRootHelper(rule3, sigRootFn)
+		c.signingRootHelper(rule3, sigRootFn, sigRootData, sigRootDomain, sigRootCombined)
 	}
 }
 
@@ -451,7 +468,7 @@ func containerFill(F *ssa.Function, C *ssa.Alloc, isD func(ssa.Value) bool) (map
 
 // signingRootHelper: generateSigningRoot(root, domain) = SigningRoot{DataRoot: root, Domain: domain}.HashTreeRoot(), and the
 // hasher feeds DataRoot before Domain.
-func (c *Ctx) signingRootHelper(rule string, fn *ssa.Function) {
+func (c *Ctx) signingRootHelper(rule string, fn *ssa.Function, dataIdx, domIdx int, combined bool) {
 	var obj *ssa.Alloc
 	var H *ssa.Call
 	for _, ci := range Calls(fn, func(ci ssa.CallInstruction) bool {
@@ -485,12 +502,32 @@ func (c *Ctx) signingRootHelper(rule string, fn *ssa.Function) {
 			}
 		}
 	}
-	if fields["DataRoot"] != 1 || fields["Domain"] != 2 {
+	if fields["DataRoot"] != dataIdx || fields["Domain"] != domIdx {
 		c.R.Fail(rule, Fn(fn), c.Pos(H), fmt.Sprintf("the signing-root object is not {DataRoot: root parameter, Domain: domain parameter}: %v", fields), "SigningRoot{DataRoot: root, Domain: domain}", nil)
 		return
 	}
+	if combined {
+		// the helper signs what it hashed: the argument of AccountSigner.Sign is the slice of H's root
+		nsign := 0
+		for _, ci := range Calls(fn, func(ci ssa.CallInstruction) bool { return IsInvokeOf(ci, pkgWTypes, "AccountSigner", "Sign") }) {
+			nsign++
+			src := arraySliceSource(ci.Common().Args[len(ci.Common().Args)-1])
+			ex, ok := src.(*ssa.Extract)
+			if !ok || ex.Tuple != ssa.Value(H) || ex.Index != 0 {
+				c.R.Fail(rule, Fn(fn), c.Pos(ci), "the combined signing helper signs something other than the hash tree root of its signing-root object", "Sign(signingRoot[:]) with signingRoot = container.HashTreeRoot()", nil)
+				return
+			}
+		}
+		if nsign != 1 {
+			c.R.Unknown(rule, Fn(fn), c.P.FuncPos(fn), fmt.Sprintf("expected one Sign call in the combined signing helper, found %d", nsign))
+			return
+		}
+	}
 	// result returned is H's result
 	for _, ret := range an.Returns(fn) {
+		if combined {
+			break
+		}
 		v := an.Result(ret, 0)
 		okRet := v == ssa.Value(H)
 		if ex, ok := v.(*ssa.Extract); ok && ex.Tuple == ssa.Value(H) {
